@@ -45,11 +45,19 @@ func endListener(c *Ctx, id string) *ssa.Function {
 	w := c.W
 	// the function bound to the observer's endListener: the stream method taking a DcpStreamEndContext
 	var out *ssa.Function
+	var cands []*ssa.Function
 	for _, fn := range w.ModFuncs {
 		if fn.Parent() != nil || fn.Signature.Recv() == nil || recvTypeName(fn.Signature.Recv().Type()) != "stream" || len(fn.Params) != 2 {
 			continue
 		}
 		if recvTypeName(fn.Params[1].Type()) == "DcpStreamEndContext" {
+			cands = append(cands, fn)
+		}
+	}
+	// helpers of the listener take the same context (a logging helper, say): the listener is the one handed
+	// out as a function value
+	for _, fn := range cands {
+		if len(cands) == 1 || len(w.usesAsValue(fn)) > 0 {
 			out = fn
 		}
 	}
